@@ -321,17 +321,18 @@ class UnifiedRTFEncoder(EncodingStrategy):
             is_first = i == 0
             is_last = i == num - 1
 
-            # Title
-            if (
+            # Title and subline follow page_title
+            show_title = (
                 show_title_on_all
                 or (document.rtf_page.page_title == "first" and is_first)
                 or (document.rtf_page.page_title == "last" and is_last)
-            ):
+            )
+            if show_title:
                 parts.append(title)
                 parts.append("\n")
 
             # Subline
-            if is_first and document.rtf_subline:
+            if show_title and document.rtf_subline:
                 parts.append(
                     self.encoding_service.encode_subline(
                         document.rtf_subline, method="line"
